@@ -1,9 +1,17 @@
 import CalicoVerif.Util.Proto
 import CalicoVerif.Model.C05
+import CalicoVerif.Model.C05Pol
 /-! Driver for C05.  Ops:
   `new`
   `ep <id> <p1,p2|-|DEL> <valid 0|1> [extra…]`    raw WorkloadEndpoint/HostEndpoint update (before the ValidationFilter)
   `prof <name> <rulesId|DEL> <valid 0|1> [extra…]` raw ProfileRules update
+Policy / tier stream (`newp` starts a case): raw updates carry the validators' verdict as `<valid>`:
+  `rtier name order|~ action|~ valid` | `rtier-del name`
+  | `rpol kind|ns|name tier|~ order|~ flags types valid [x=…]` | `rpol-del key`
+  | `rep w:id|h:id tag profiles valid [x=…]` | `rep-del ep`
+  | `match key ep` | `unmatch key ep` (issued by the real ARC) | `status insync` | `flush`
+  output `ok`, for `flush` the emitted endpoint tier data sorted by endpoint
+  (`ep tag profs T:name=order=action=policies+…`, `ep nil`; `skip` when not in sync, `panic`).
 Output: the rule scanner's view (active profiles with dummy-drop `D` or real rules `R:<id>`)
 and the sorted OnProfileActive/Inactive calls of this op.
 -/
@@ -34,22 +42,111 @@ def applyRaw (st : Arc String) (u : RawUpd String) : Arc String × String :=
 def parseValid (s : String) : Option Bool :=
   if s == "1" then some true else if s == "0" then some false else none
 
-def step (st : Arc String) (line : String) : Arc String × String :=
+def stepProf (st : Arc String) (line : String) : Option (Arc String × String) :=
   match words line with
-  | ["new"] => (Arc.new String, "ok")
-  | ["insync"] => (st, render st.out.length st)
+  | ["new"] => some (Arc.new String, "ok")
+  | ["insync"] => some (st, render st.out.length st)
   | "ep" :: id :: ids :: valid :: _ =>
     match parseValid valid with
     | some b =>
-      if ids == "DEL" then applyRaw st (.endpoint id none)
-      else applyRaw st (.endpoint id (some ((if ids == "-" then [] else ids.splitOn ","), b)))
-    | none => (st, "bad-op")
+      if ids == "DEL" then some (applyRaw st (.endpoint id none))
+      else some (applyRaw st (.endpoint id (some ((if ids == "-" then [] else ids.splitOn ","), b))))
+    | none => none
   | "prof" :: name :: r :: valid :: _ =>
     match parseValid valid with
     | some b =>
-      if r == "DEL" then applyRaw st (.profileRules name none)
-      else applyRaw st (.profileRules name (some (r, b)))
-    | none => (st, "bad-op")
-  | _ => (st, "bad-op")
+      if r == "DEL" then some (applyRaw st (.profileRules name none))
+      else some (applyRaw st (.profileRules name (some (r, b))))
+    | none => none
+  | _ => none
 
-def main : IO Unit := run step (Arc.new String)
+/-! ### policy / tier stream -/
+open CalicoVerif.C02 in
+def tok (s : String) : String := if s == "~" then "" else s
+def untok (s : String) : String := if s == "" then "~" else s
+def csv (s : String) : List String := if s == "-" then [] else (s.splitOn ",").map tok
+def uncsv (l : List String) : String := if l.isEmpty then "-" else ",".intercalate (l.map untok)
+
+def parseKey (s : String) : Option C02.PolicyKey :=
+  match s.splitOn "|" with
+  | [k, ns, n] => some ⟨tok n, tok ns, tok k⟩
+  | _ => none
+def showKey (k : C02.PolicyKey) : String := s!"{untok k.kind}|{untok k.ns}|{untok k.name}"
+
+def parseEpKey (s : String) : Option C02.EpKey :=
+  if s.startsWith "w:" then some (.wep (s.drop 2).toString)
+  else if s.startsWith "h:" then some (.hep (s.drop 2).toString) else none
+def showEpKey : C02.EpKey → String
+  | .wep id => "w:" ++ id
+  | .hep id => "h:" ++ id
+
+def parseOrder (s : String) : Option (Option Int) :=
+  if s == "~" then some none else s.toInt?.map some
+def showOrder : Option Int → String
+  | none => "~"
+  | some i => toString i
+
+def flagStr (m : C02.PolMeta) : String :=
+  (if m.doNotTrack then "u" else "") ++ (if m.preDNAT then "d" else "") ++ (if m.applyOnForward then "f" else "")
+  ++ (if m.ingress then "i" else "") ++ (if m.egress then "e" else "")
+
+def showPol (p : C02.PolKV) : String := s!"{showKey p.key}:{showOrder p.val.order}:{flagStr p.val}:{untok p.val.tier}"
+def showTier (t : C02.TierInfo) : String :=
+  let ps := if t.policies.isEmpty then "-" else ";".intercalate (t.policies.map showPol)
+  s!"{untok t.name}={showOrder t.order}={untok t.defaultAction}={ps}"
+def showTiers (l : List C02.TierInfo) : String := if l.isEmpty then "-" else "+".intercalate (l.map showTier)
+
+def showCall : C02.Call → String × String
+  | .endpointUpdate k none => (showEpKey k, s!"{showEpKey k} nil")
+  | .endpointUpdate k (some u) =>
+    (showEpKey k, s!"{showEpKey k} {untok u.ep.tag} {uncsv u.ep.profiles} T:{showTiers u.tiers}")
+  | _ => ("", "?")
+
+def showCalls (cs : List C02.Call) : String :=
+  let l := (cs.map showCall).mergeSort (fun a b => decide (a.1 ≤ b.1))
+  if l.isEmpty then "none" else " ; ".intercalate (l.map (·.2))
+
+def dropX (ws : List String) : List String := ws.filter (fun w => !w.startsWith "x=")
+
+def parseRaw (ws : List String) : Option RawEvent :=
+  match ws with
+  | ["rtier", n, o, a, v] => do
+      let o ← parseOrder o
+      let b ← parseValid v
+      pure (.tier n (some ((o, tok a), b)))
+  | ["rtier-del", n] => some (.tier n none)
+  | ["rpol", k, t, o, fl, ty, v] => do
+      let k ← parseKey k
+      let o ← parseOrder o
+      let b ← parseValid v
+      pure (.policy k (some (⟨tok t, o, fl.contains 'u', fl.contains 'd', fl.contains 'f', csv ty⟩, b)))
+  | ["rpol-del", k] => (parseKey k).map fun k => .policy k none
+  | ["rep", k, tag, profs, v] => do
+      let k ← parseEpKey k
+      let b ← parseValid v
+      pure (.endpoint k (some (⟨tok tag, csv profs⟩, b)))
+  | ["rep-del", k] => (parseEpKey k).map fun k => .endpoint k none
+  | ["match", p, e] => do pure (.matchStarted (← parseKey p) (← parseEpKey e))
+  | ["unmatch", p, e] => do pure (.matchStopped (← parseKey p) (← parseEpKey e))
+  | ["status", "insync"] => some (.status true)
+  | _ => none
+
+def stepPol (r : C03.Resolver) (line : String) : Option (C03.Resolver × String) :=
+  match dropX (words line) with
+  | ["newp"] => some ({}, "ok")
+  | ["flush"] =>
+    if !r.inSync then some (r, "skip") else
+    match r.flush with
+    | none => some (r, "panic")
+    | some (r', cs) => some (r', showCalls cs)
+  | ws => (parseRaw ws).map fun e => (stepRaw r e, "ok")
+
+def step (st : Arc String × C03.Resolver) (line : String) : (Arc String × C03.Resolver) × String :=
+  match stepProf st.1 line with
+  | some (a, o) => ((a, st.2), o)
+  | none =>
+    match stepPol st.2 line with
+    | some (r, o) => ((st.1, r), o)
+    | none => (st, "bad-op")
+
+def main : IO Unit := run step (Arc.new String, {})
